@@ -793,6 +793,148 @@ pub fn run_case_file(props: &[Property], prop: &str, sub: &str, path: &Path) -> 
     }
 }
 
+// ------------------------------------------------------------------------------------------------
+// Bounded-exhaustive sub-checks: every case of an enumerated small scope (e.g. every labelled graph
+// on up to 4 nodes x every encoding x every start node) instead of a random sample of it.
+
+pub struct EnumSub<C> {
+    pub name: &'static str,
+    /// number of cases of the scope (tier-dependent)
+    pub count: fn(Tier) -> u64,
+    /// the i-th case, 0 <= i < count
+    pub make: fn(Tier, u64) -> C,
+    pub run: fn(&C) -> Outcome,
+}
+
+pub fn sub_enum<C>(name: &'static str, count: fn(Tier) -> u64, make: fn(Tier, u64) -> C, run: fn(&C) -> Outcome) -> Box<dyn SubCheck>
+where
+    C: Debug + Clone + Serialize + DeserializeOwned + Send + Sync + 'static,
+{
+    Box::new(EnumSub { name, count, make, run })
+}
+
+impl<C> SubCheck for EnumSub<C>
+where
+    C: Debug + Clone + Serialize + DeserializeOwned + Send + Sync + 'static,
+{
+    fn name(&self) -> &str {
+        self.name
+    }
+    fn run_from_bytes(&self, _data: &[u8]) -> Option<(Failure, serde_json::Value)> {
+        None
+    }
+    fn seed_corpus(&self, _dir: &Path, _count: usize, _seed: u64) -> usize {
+        0
+    }
+    fn replay(&self, case: &serde_json::Value) -> Result<Outcome, String> {
+        let c: C = serde_json::from_value(case.clone()).map_err(|e| format!("cannot decode case: {e}"))?;
+        Ok(run_case_strict(self.run, &c))
+    }
+    fn campaign(&self, ctx: &Ctx, known_open: &HashSet<String>) -> SubReport {
+        let t0 = Instant::now();
+        let total = (self.count)(ctx.tier);
+        let shards = ctx.shards.max(1) as u64;
+        let (make, run, tier) = (self.make, self.run, ctx.tier);
+        // lowest failing index wins (deterministic); shards stop looking beyond it
+        let best: Arc<AtomicU64> = Arc::new(AtomicU64::new(u64::MAX));
+        let mut handles = Vec::new();
+        for shard in 0..shards {
+            let best = best.clone();
+            let known_open = known_open.clone();
+            handles.push(
+                std::thread::Builder::new()
+                    .stack_size(64 << 20)
+                    .spawn(move || {
+                        let mut acc = ShardAcc::default();
+                        let mut fail: Option<(u64, Failure)> = None;
+                        let mut i = shard;
+                        while i < total {
+                            if i > best.load(Ordering::Relaxed) {
+                                break;
+                            }
+                            let case = make(tier, i);
+                            let mut out = run_case(run, &case);
+                            if let Ok(obs) = &mut out {
+                                for f in std::mem::take(&mut obs.deferred) {
+                                    if known_open.contains(&f.sig) {
+                                        *acc.excluded.entry(f.sig.clone()).or_default() += 1;
+                                    } else {
+                                        out = Err(f);
+                                        break;
+                                    }
+                                }
+                            }
+                            acc.evaluations += 1;
+                            match out {
+                                Ok(obs) => {
+                                    for l in &obs.labels {
+                                        *acc.labels.entry(l.to_string()).or_default() += 1;
+                                    }
+                                    if obs.nontrivial {
+                                        // enumerated cases are distinct by construction
+                                        acc.fps.insert(i);
+                                        if acc.first.is_none() {
+                                            acc.first = serde_json::to_value(&case).ok();
+                                        }
+                                        if acc.fps.len() % 4099 == 1 {
+                                            acc.largest = serde_json::to_value(&case).ok().map(|v| (i as usize, v));
+                                        }
+                                    }
+                                }
+                                Err(f) if known_open.contains(&f.sig) => {
+                                    *acc.excluded.entry(f.sig.clone()).or_default() += 1;
+                                }
+                                Err(f) => {
+                                    best.fetch_min(i, Ordering::Relaxed);
+                                    fail = Some((i, f));
+                                    break;
+                                }
+                            }
+                            i += shards;
+                        }
+                        (acc, fail)
+                    })
+                    .expect("spawn"),
+            );
+        }
+        let mut rep = SubReport { name: self.name.to_string(), profile: ctx.profile.to_string(), ..Default::default() };
+        let mut fails: Vec<(u64, Failure)> = Vec::new();
+        let mut nontrivial = 0u64;
+        for h in handles {
+            let (acc, fail) = h.join().expect("enumeration shard panicked");
+            rep.evaluations += acc.evaluations;
+            nontrivial += acc.fps.len() as u64;
+            for (k, v) in acc.excluded {
+                *rep.excluded_known.entry(k).or_default() += v;
+            }
+            for (k, v) in acc.labels {
+                *rep.labels.entry(k).or_default() += v;
+            }
+            if rep.samples.len() < 2 {
+                if let Some(f) = acc.first {
+                    rep.samples.push(f);
+                }
+            }
+            if rep.samples.len() < 4 {
+                if let Some((_, l)) = acc.largest {
+                    rep.samples.push(l);
+                }
+            }
+            fails.extend(fail);
+        }
+        if let Some((i, f)) = fails.into_iter().min_by_key(|x| x.0) {
+            let c = make(tier, i);
+            let f = Failure { sig: f.sig, msg: format!("{} [case {i} of the enumeration of {total}]", f.msg) };
+            let path = write_replay(ctx.prop, self.name, &f, &c);
+            rep.violation = Some(ViolationReport { sig: f.sig, msg: f.msg, replay: path.to_string_lossy().into_owned() });
+        }
+        rep.labels.insert(format!("exhaustive scope: {total} cases"), 1);
+        rep.distinct_nontrivial = nontrivial;
+        rep.wall_s = t0.elapsed().as_secs_f64();
+        rep
+    }
+}
+
 fn write_replay<C: Serialize>(prop: &str, sub: &str, f: &Failure, c: &C) -> PathBuf {
     let dir = Path::new(VERIF_DIR).join("failures").join(prop);
     let _ = std::fs::create_dir_all(&dir);
